@@ -1,8 +1,12 @@
 package main
 
 import (
+	"bytes"
+	"context"
 	"fmt"
+	"github.com/titpetric/vuego"
 	"strings"
+	"testing/fstest"
 
 	"golang.org/x/net/html"
 )
@@ -144,6 +148,7 @@ func (a c14Attr) under(prefix string) c14Attr {
 func init() { streams["C14"] = runC14 }
 
 func runC14(r *Run) {
+	c14TypedHistories(r)
 	r.Imports = []string{"Base.Val", "Model.Attrs"}
 	r.Rule("one probe element carrying up to 8 attributes over a vocabulary of static (plain / with mustaches), :name and v-bind:name bound, bound-with-mustache, object syntax on class / style / other names (path and literal values, quoted keys, camelCase style keys, hyphenated keys with capitals such as CSS custom properties), " +
 		"bracketed [name], v-show and other directives, including several bound attributes, static/bound collisions on class, style and ordinary names; values of every kind and truthiness; " +
@@ -433,6 +438,67 @@ func runC14(r *Run) {
 				r.Case("attrs", lcoq, o, map[string]any{"template": lsrc, "row": i, "output": lout}, map[string]string{"shape": "loop"}, true)
 			}
 			r.Count("loop-rows")
+		}
+	}
+}
+
+// one engine, one template, request after request with the same names holding values of different Go types (int, then
+// JSON's float64, int64, uint8; a string, then a named string type; one struct type, then another with the same field
+// names): every bound attribute, :class / :style object, v-show is what a new engine gives for that request
+type c14Name string
+type c14UserA struct {
+	Name  string
+	Admin bool
+	Level int
+}
+type c14UserB struct {
+	Level float64
+	Admin bool
+	Name  string
+}
+
+func c14TypedHistories(r *Run) {
+	tpl := `<p id="a" class="box" :class="{on: n == 1, off: n == 2, adm: u.Admin}" v-show="n == 1" :data-n="n" :data-eq="n == 1" :style="{opacity: n == 1 ? 1 : 0.5}" :title="s == 'x' ? 'is-x' : 'not-x'" :data-u="u.Name + '/' + u.Level">x</p>` +
+		`<ul><li v-for="k in ks" :class="{one: k == 1}" v-show="k == 1" :data-k="k + 1">i</li></ul>`
+	reqs := []map[string]any{
+		{"n": 1, "s": "x", "u": c14UserA{"ann", true, 3}, "ks": []any{1, 2}},
+		{"n": float64(1), "s": c14Name("x"), "u": c14UserB{2.5, false, "bob"}, "ks": []any{1, int64(1), uint8(1), 1.0}},
+		{"n": int64(2), "s": "y", "u": map[string]any{"Name": "cy", "Admin": true, "Level": 1}, "ks": []any{uint8(1), 1}},
+		{"n": uint8(1), "s": c14Name("y"), "u": &c14UserA{"dan", false, 0}, "ks": []any{1.0, 1}},
+		{"n": 1, "s": "x", "u": c14UserA{"ann", true, 3}, "ks": []any{1, 2}},
+	}
+	m := fstest.MapFS{"page.vuego": &fstest.MapFile{Data: []byte(tpl)}}
+	render := func(v *vuego.Vue, t vuego.Template, entry string, d map[string]any) string {
+		var buf bytes.Buffer
+		var err error
+		func() {
+			defer func() {
+				if x := recover(); x != nil {
+					err = fmt.Errorf("PANIC %v", x)
+				}
+			}()
+			if entry == "Vue.Render" {
+				err = v.Render(&buf, "page.vuego", d)
+			} else {
+				err = t.New().Fill(d).RenderString(context.Background(), &buf, tpl)
+			}
+		}()
+		return buf.String() + "|err=" + fmt.Sprint(err)
+	}
+	for _, entry := range []string{"Vue.Render", "New.Fill.RenderString"} {
+		for start := 0; start < len(reqs); start++ {
+			vue, base := vuego.NewVue(m), vuego.NewFS(m)
+			for k := 0; k < len(reqs); k++ {
+				d := reqs[(start+k)%len(reqs)]
+				got, want := render(vue, base, entry, d), render(vuego.NewVue(m), vuego.NewFS(m), entry, d)
+				r.Eval(fmt.Sprintf("typed-history:%s:%d:%d", entry, start, k), k > 0, nil)
+				r.Count("stream:typed-histories(oracle only)")
+				if got != want {
+					r.Fail("bound attributes of a request depend on the Go types an earlier request on the same engine gave the same names", map[string]string{"oracle": "typed-histories", "entry": entry},
+						map[string]any{"template": tpl, "request": fmt.Sprintf("%#v", d), "position_in_history": k, "first_request": start, "used_engine": got, "new_engine": want})
+					break
+				}
+			}
 		}
 	}
 }
